@@ -185,10 +185,45 @@ that are registered *now*, `postProcess` 613-629 loops over the registered list 
 and-conditions in that loop; TimeTemperaturePrecipitation.py 24-28: the constructor clears the
 model's list and then adds each of its conditions with mode 'and'. -/
 
-/-- everything a stopping decision of the model can depend on -/
+/-- what the user configured for one population balance model (PopulationBalance.py 53-69, KWNEuler.py
+`setPBMParameters` 71-99, `setPSDrecording` 101-119): `originalMin`, `originalMax`, `originalBins`, `minBins`,
+`maxBins`, `_adaptiveBinSize`, `_record` -/
+structure PBMCfg (α : Type) where
+  cMin : α
+  cMax : α
+  bins : Nat
+  minBins : Nat
+  maxBins : Nat
+  adaptive : Bool
+  record : Bool
+
+/-- one `PopulationBalanceModel`: its configuration and the grid in use (`min`, `max`, `bins`; a run re-meshes it) -/
+structure PBMState (α : Type) where
+  cfg : PBMCfg α
+  gMin : α
+  gMax : α
+  gBins : Nat
+
+/-- `PopulationBalanceModel(cMin, cMax, bins, minBins, maxBins)`: the grid is the configured one -/
+def PBMState.ofCfg {α : Type} (c : PBMCfg α) : PBMState α := ⟨c, c.cMin, c.cMax, c.bins⟩
+
+/-- `PopulationBalanceModel.reset()` 71-92: back to `originalMin`, `originalMax`, `originalBins`; nothing else of the
+configuration is touched -/
+def PBMState.reset {α : Type} (p : PBMState α) : PBMState α :=
+  { p with gMin := p.cfg.cMin, gMax := p.cfg.cMax, gBins := p.cfg.bins }
+
+/-- the run re-meshed the grid of the p-th population balance model -/
+def regridAt {α : Type} (mn mx : α) (b : Nat) : Nat → List (PBMState α) → List (PBMState α)
+  | _, [] => []
+  | 0, x :: xs => { x with gMin := mn, gMax := mx, gBins := b } :: xs
+  | p+1, x :: xs => x :: regridAt mn mx b p xs
+
+/-- everything a stopping decision of the model can depend on, and the population balance models (`self.PBM`, one per
+phase) that `reset()` must leave configured as they are -/
 structure Reg (α : Type) where
   latches : Nat → Latch α        -- latch of pool object i
   reg : List (Nat × Bool)        -- (`_stoppingConditions[j]` as pool index, `_stopConditionMode[j]`)
+  pbm : List (PBMState α) := []  -- `self.PBM`
 
 /-- one call made on the model (or the construction of a TTP calculator on it) -/
 inductive Op (α : Type) where
@@ -197,12 +232,14 @@ inductive Op (α : Type) where
   | reset                                             -- reset()
   | solve (d : PData α) (tf : α) (fuel k0 : Nat)      -- solve(...) entered at row k0, history d, end time tf
   | ttpInit (is : List Nat)                           -- TTPCalculator(model, [obj_i for i in is])
+  | setPBM (cfgs : List (PBMCfg α))                   -- setPBMParameters / setPSDrecording: new PBM objects, one per phase
+  | regrid (p : Nat) (mn mx : α) (bins : Nat)         -- what a run did to the grid of PBM p (an input, like the history)
 
 section registration
 variable {α : Type} [Add α] [Sub α] [Mul α] [Div α] [Neg α] [One α] [LT α] [DecidableLT α]
 
 /-- a new model: nothing registered; new condition objects: clear -/
-def Reg.fresh : Reg α := ⟨fun _ => Latch.clear, []⟩
+def Reg.fresh : Reg α := { latches := fun _ => Latch.clear, reg := [] }
 
 def Reg.add (s : Reg α) (i : Nat) (isOr : Bool) : Reg α := { s with reg := s.reg ++ [(i, isOr)] }
 
@@ -224,9 +261,12 @@ def Reg.writeBack (s : Reg α) (es : List (Entry α)) : Reg α :=
       | some p => p.2.l
       | none => s.latches i }
 
-/-- `KWNBase.reset`: `for sc in self._stoppingConditions: sc.reset()` — only the registered objects -/
+/-- `PrecipitateModel.reset` (KWNEuler.py 37-48) over `KWNBase.reset` 90-104:
+`for sc in self._stoppingConditions: sc.reset()` — only the registered objects — and the configured population balance
+models are KEPT (`PBM = self.PBM; super().reset(); self.PBM = PBM`) and each is reset to its own configured grid -/
 def Reg.resetModel (s : Reg α) : Reg α :=
-  { s with latches := fun i => if s.reg.any (fun r => r.1 == i) then Latch.clear else s.latches i }
+  { s with latches := fun i => if s.reg.any (fun r => r.1 == i) then Latch.clear else s.latches i,
+           pbm := s.pbm.map PBMState.reset }
 
 /-- `solve`: the loop of `run` over the registered entries; returns (last row, stopped early, state) -/
 def Reg.solve (conds : Nat → Cond α) (s : Reg α) (d : PData α) (tf : α) (fuel k0 : Nat) :
@@ -240,6 +280,8 @@ def Reg.step (conds : Nat → Cond α) (s : Reg α) : Op α → Reg α
   | .reset => s.resetModel
   | .solve d tf fuel k0 => (s.solve conds d tf fuel k0).2.2
   | .ttpInit is => s.ttpInit is
+  | .setPBM cfgs => { s with pbm := cfgs.map PBMState.ofCfg }
+  | .regrid p mn mx b => { s with pbm := regridAt mn mx b p s.pbm }
 
 /-- the state after a whole history of calls -/
 def Reg.after (conds : Nat → Cond α) (s : Reg α) (ops : List (Op α)) : Reg α :=
@@ -273,6 +315,12 @@ def staleCount (n : Nat) : List (Op α) → Nat
   | .add _ false :: ops => staleCount (n + 1) ops
   | .ttpInit is :: ops => staleCount (n + is.length) ops
   | _ :: ops => staleCount n ops
+
+/-- variant of `reset()` in which `_resetArrays` REPLACES every population balance model by a default-constructed one
+(what the code did before repair 9231d6f) -/
+def Reg.resetModelDefault (dflt : PBMCfg α) (s : Reg α) : Reg α :=
+  { s with latches := fun i => if s.reg.any (fun r => r.1 == i) then Latch.clear else s.latches i,
+           pbm := s.pbm.map (fun _ => PBMState.ofCfg dflt) }
 
 /-- variant of the TTP constructor that keeps what the model holds and only appends the objects
 that are not registered yet -/
